@@ -42,3 +42,16 @@ Theorem C15_acquire_partial : forall protect e,
   ikesa_process_acquire true protect (acquire_index (kernel_index_of e)) = AcqNegotiate e.
 Proof. exact acquire_maps_back. Qed.
 Print Assumptions C15_acquire_partial.
+
+(** Which IKE_SA handles an ACQUIRE for (my_addr, peer_addr) (lookup condition generated from
+    IkeSaController._get_ike_sa_by_addrs): an existing table entry is re-used only if BOTH its addresses equal the
+    pair; otherwise a new initiator for exactly that pair is created (F18: no re-use across connections that merely
+    share the peer). *)
+Theorem C15_acquire_ike_sa : forall table my peer,
+  match pick_ike_sa table my peer with
+  | PickExisting n => exists m p, nth_error table n = Some (m, p) /\ ip_eqb m my = true /\ ip_eqb p peer = true
+  | PickNewInitiator m p => m = my /\ p = peer /\
+                            forall m' p', In (m', p') table -> (ip_eqb m' my && ip_eqb p' peer)%bool = false
+  end.
+Proof. exact acquire_ike_sa. Qed.
+Print Assumptions C15_acquire_ike_sa.
